@@ -157,7 +157,7 @@ CONCRETE = {
                             ("apply ctlfuncs.work --num 2", {"kind": "call", "m": "apply", "args": [{"$path": "ctlfuncs.work"}], "kwargs": {"num": 2}})],
                  "await": [("flush", {"kind": "call", "m": "flush"}), ("gather-and-close", {"kind": "call", "m": "gather_and_close"})],
                  "help": [("apply -h", None), ("-h", None), ("map --help", None)],
-                 "unknown": [("frobnicate", None), ("apply-now 3", None), ("0", None)],
+                 "unknown": [("frobnicate", None), ("apply-now 3", None), ("0", None), ("exit", None), ("quit", None)],
                  "badarg": [("apply", None), ("cancel-group", None), ("lock now", None), ("map ctlfuncs.work", None)],
                  "convfail": [("cancel abc", None), ("apply no.such.module", None), ("map ctlfuncs.work [1,", None),
                               ("pool-size x", None)]},
@@ -166,7 +166,7 @@ CONCRETE = {
                                   ("stop 1", {"kind": "call", "m": "stop", "args": [1]}), ("unlock", {"kind": "call", "m": "unlock"})],
                        "await": [("flush", {"kind": "call", "m": "flush"}), ("gather-and-close", {"kind": "call", "m": "gather_and_close"})],
                        "help": [("start -h", None), ("--help", None), ("stop --help", None)],
-                       "unknown": [("frobnicate", None), ("start-now", None), ("apply ctlfuncs.work", None)],
+                       "unknown": [("frobnicate", None), ("start-now", None), ("apply ctlfuncs.work", None), ("exit", None), ("help", None)],
                        "badarg": [("start", None), ("stop", None), ("lock 1", None)],
                        "convfail": [("start abc", None), ("stop 1.5", None), ("pool-size x", None)]},
 }
